@@ -71,6 +71,17 @@ func (g *Gen) genTx(fam string) *world.TxJSON {
 		if g.R.Intn(3) == 0 {
 			n = 1
 		}
+		if g.R.Intn(250) == 0 && first.Value.Cmp(big.NewInt(400)) > 0 {
+			// a very long list (more than 255 entries) of one token, one unit each
+			cnt := 254 + g.R.Intn(50)
+			var items [][]byte
+			_, nb := g.tokenID(first.Token, first.Nonce)
+			for i := 0; i < cnt; i++ {
+				items = append(items, first.Token, nb, []byte{1})
+			}
+			args := append([][]byte{dst, big.NewInt(int64(cnt)).Bytes()}, items...)
+			return g.tx(first.Addr, first.Addr, spec.FnMultiTransfer, args, 4_000_000_000, g.callTypeFor(first.Addr, dst))
+		}
 		var items [][]byte
 		spent := map[string]*big.Int{}
 		for i := 0; i < n; i++ {
